@@ -383,4 +383,35 @@ theorem crcPoly_iff_algebraic (p init msg r : List Bool) (hi : init.length = p.l
   · rintro ⟨hl, q, hq⟩
     exact polyMod_unique p _ r (by rw [hlen]; omega) ⟨q, fun i => by rw [hD, hq]⟩
 
+/-! ## `pmul` is the product of polynomials (convolution of the coefficients) -/
+
+/-- `f 0 + f 1 + … + f (n-1)` over GF(2) -/
+def xorSum (f : Nat → Bool) : Nat → Bool
+  | 0 => false
+  | n + 1 => (xorSum f n != f n)
+
+theorem xorSum_false (n : Nat) : xorSum (fun _ => false) n = false := by
+  induction n with
+  | zero => rfl
+  | succ n ih => simp [xorSum, ih]
+
+theorem xorSum_peel (f : Nat → Bool) (n : Nat) :
+    xorSum f (n + 1) = (f 0 != xorSum (fun j => f (j + 1)) n) := by
+  induction n with
+  | zero => simp [xorSum]
+  | succ n ih =>
+    rw [xorSum, ih, xorSum]
+    cases f 0 <;> cases xorSum (fun j => f (j + 1)) n <;> cases f (n + 1) <;> rfl
+
+theorem coeff_pmul_conv (p q : List Bool) (i : Nat) :
+    coeff (pmul p q) i = xorSum (fun j => coeff p j && coeff q (i - j)) (i + 1) := by
+  induction p generalizing i with
+  | nil => simp [xorSum_false]
+  | cons a p ih =>
+    cases i with
+    | zero => simp [coeff_pmul_cons_zero, xorSum]
+    | succ i =>
+      rw [coeff_pmul_cons_succ, ih, xorSum_peel (fun j => coeff (a :: p) j && coeff q (i + 1 - j))]
+      simp [Nat.add_sub_add_right]
+
 end Igris.C17
